@@ -205,6 +205,11 @@ theorem stepC_erase (P : Params K) (c : CSys K) (h : Coherent c) (op : Op K) :
     · simp [stepC, step, CSys.erase]
     · intro r hr
       exact h r hr
+  | setPos p =>
+    refine ⟨?_, rfl, ?_⟩
+    · simp [stepC, step, CSys.erase]
+    · intro r hr
+      exact h r hr
 
 /-- **runC_erase** (history independence): on a coherent object every history of operations yields the
     visible state and the observations of the functional model; whether and when scaled positions were
@@ -391,12 +396,42 @@ theorem clean_stepC (P : Params K) (h0 : 0 ≤ P.tiny) (h1 : P.tiny < 1) (c : CS
   | setVects v => exact zeroSmall_idem P.tiny h0 h1 v
   | setOrigin o => exact hc
   | setPbc p => exact hc
+  | setPos p => exact hc
 
 theorem clean_runC (P : Params K) (h0 : 0 ≤ P.tiny) (h1 : P.tiny < 1) (ops : List (Op K)) (c : CSys K)
     (hc : Clean P.tiny c) : Clean P.tiny (runC P c ops).1 := by
   induction ops generalizing c with
   | nil => exact hc
   | cons op ops ih => exact ih _ (clean_stepC P h0 h1 c hc op)
+
+theorem absK_neg (x : K) : absK (-x) = absK x := by rw [absK_eq_abs, absK_eq_abs, abs_neg]
+
+theorem zeroIfSmall_neg (tiny m x : K) : zeroIfSmall tiny m (-x) = - zeroIfSmall tiny m x := by
+  unfold zeroIfSmall
+  rw [neg_div, absK_neg]
+  split_ifs <;> simp
+
+/-- reversing the third vector does not change the largest component. -/
+theorem maxAbs_flipC (b : Box K) : maxAbs (flipC b).vects = maxAbs b.vects := by
+  obtain ⟨⟨⟨a0, a1, a2⟩, ⟨a3, a4, a5⟩, ⟨a6, a7, a8⟩⟩, o⟩ := b
+  simp only [maxAbs, flipC, M3.toList, V3.toList, V3.neg_def, List.cons_append, List.nil_append, List.map_cons,
+    List.map_nil, absK_neg]
+
+/-- **zeroSmall_flipC**: the reversed cell of a clean cell is clean: the first write of `normalize` (third vector
+    of a left-handed cell reversed) is never altered by the clean-up of the setter. -/
+theorem zeroSmall_flipC (tiny : K) (b : Box K) (h : zeroSmall tiny b.vects = b.vects) :
+    zeroSmall tiny (flipC b).vects = (flipC b).vects := by
+  have hm := maxAbs_flipC b
+  obtain ⟨⟨⟨a0, a1, a2⟩, ⟨a3, a4, a5⟩, ⟨a6, a7, a8⟩⟩, o⟩ := b
+  unfold zeroSmall at h ⊢
+  rw [hm]
+  simp only [flipC, V3.neg_def, zeroIfSmall_neg] at h ⊢
+  simp only [M3.mk.injEq, V3.mk.injEq] at h ⊢
+  obtain ⟨⟨h0, h1, h2⟩, ⟨h3, h4, h5⟩, ⟨h6, h7, h8⟩⟩ := h
+  refine ⟨⟨h0, h1, h2⟩, ⟨h3, h4, h5⟩, ⟨?_, ?_, ?_⟩⟩
+  · rw [h6]
+  · rw [h7]
+  · rw [h8]
 
 end field
 
